@@ -1,4 +1,991 @@
-//! harness family c18 (stub until the family is built)
+//! harness family c18: the three language servers under arbitrary notification histories and
+//! analysis-thread schedules.
+//!
+//! The server binaries are built from the working tree (`A2KIT_REPO`, default `/repo`) with
+//! `--cfg a2kit_verif` into `./c18-target` and driven over stdio with LSP.  If the verification
+//! hooks are compiled in (the server writes `A2KIT_VERIF_LOG`), every case additionally yields an
+//! event trace that is replayed through the Lean model (`c18 trace …`); otherwise the family runs in
+//! black-box mode (oracles on the LSP traffic only) and says so in the `D` counters.
+//!
+//! Case streams: `hist` (generated histories, idx 0..), `fixed` (hand-made schedules, idx 9000..),
+//! `odd` (robustness: broken/odd documents, idx 20000..).
 use crate::util::*;
+use a2kit::lang::server::Analysis;
+use std::collections::{BTreeMap, HashMap, HashSet};
+use std::io::{BufRead, BufReader, Read, Write};
+use std::process::{Child, ChildStdin, Command, Stdio};
+use std::sync::{Arc, Mutex};
+use std::time::{Duration, Instant};
 
-pub fn run(_ctx: &mut Ctx) {}
+#[derive(Clone, Copy, PartialEq, Eq, Debug)]
+enum Lang { Applesoft, Integer, Merlin }
+
+impl Lang {
+    fn all() -> [Lang; 3] { [Lang::Applesoft, Lang::Integer, Lang::Merlin] }
+    fn exe(self) -> &'static str { match self { Lang::Applesoft => "server-applesoft", Lang::Integer => "server-integerbasic", Lang::Merlin => "server-merlin" } }
+    fn name(self) -> &'static str { match self { Lang::Applesoft => "applesoft", Lang::Integer => "integerbasic", Lang::Merlin => "merlin" } }
+    fn ext(self) -> &'static str { match self { Lang::Applesoft => "bas", Lang::Integer => "ibas", Lang::Merlin => "S" } }
+    fn idx(self) -> usize { match self { Lang::Applesoft => 0, Lang::Integer => 1, Lang::Merlin => 2 } }
+}
+
+fn uri_of(lang: Lang, case: usize, d: usize) -> String { format!("file:///c18/k{}/doc{}.{}", case, d, lang.ext()) }
+
+// ------------------------------------------------------------------------------------------------
+// LSP client
+// ------------------------------------------------------------------------------------------------
+
+struct Client {
+    child: Child,
+    stdin: Option<ChildStdin>,
+    msgs: Arc<Mutex<Vec<(u64, json::JsonValue)>>>,
+    stderr: Arc<Mutex<String>>,
+    t0: Instant,
+    next_id: i64,
+}
+
+impl Client {
+    fn spawn(exe: &str, envs: &[(String, String)]) -> Option<Client> {
+        let mut cmd = Command::new(exe);
+        cmd.stdin(Stdio::piped()).stdout(Stdio::piped()).stderr(Stdio::piped());
+        cmd.env_remove("LD_PRELOAD").env_remove("A2KIT_VERIF_LOG").env_remove("A2KIT_VERIF_SCHED");
+        cmd.env("RUST_BACKTRACE", "0");
+        for (k, v) in envs { cmd.env(k, v); }
+        let mut child = cmd.spawn().ok()?;
+        let stdin = child.stdin.take();
+        let stdout = child.stdout.take()?;
+        let stderr = child.stderr.take()?;
+        let msgs = Arc::new(Mutex::new(Vec::new()));
+        let errs = Arc::new(Mutex::new(String::new()));
+        let t0 = Instant::now();
+        {
+            let msgs = Arc::clone(&msgs);
+            std::thread::spawn(move || {
+                let mut rd = BufReader::new(stdout);
+                loop {
+                    let mut len: Option<usize> = None;
+                    loop {
+                        let mut line = String::new();
+                        match rd.read_line(&mut line) { Ok(0) | Err(_) => return, Ok(_) => {} }
+                        let l = line.trim();
+                        if l.is_empty() { break; }
+                        let low = l.to_ascii_lowercase();
+                        if let Some(v) = low.strip_prefix("content-length:") { len = v.trim().parse().ok(); }
+                    }
+                    let n = match len { Some(n) => n, None => return };
+                    let mut buf = vec![0u8; n];
+                    if rd.read_exact(&mut buf).is_err() { return; }
+                    if let Ok(v) = json::parse(&String::from_utf8_lossy(&buf)) {
+                        msgs.lock().unwrap().push((t0.elapsed().as_millis() as u64, v));
+                    }
+                }
+            });
+        }
+        {
+            let errs = Arc::clone(&errs);
+            std::thread::spawn(move || {
+                let mut rd = BufReader::new(stderr);
+                let mut line = String::new();
+                while let Ok(n) = rd.read_line(&mut line) {
+                    if n == 0 { break; }
+                    let mut g = errs.lock().unwrap();
+                    if g.len() < 20000 { g.push_str(&line); }
+                    line.clear();
+                }
+            });
+        }
+        Some(Client { child, stdin, msgs, stderr: errs, t0, next_id: 100 })
+    }
+    fn send(&mut self, v: json::JsonValue) -> bool {
+        let body = v.dump();
+        match self.stdin.as_mut() {
+            Some(w) => w.write_all(format!("Content-Length: {}\r\n\r\n{}", body.len(), body).as_bytes()).and_then(|_| w.flush()).is_ok(),
+            None => false,
+        }
+    }
+    fn notify(&mut self, method: &str, params: json::JsonValue) -> bool {
+        self.send(json::object! { "jsonrpc": "2.0", "method": method, "params": params })
+    }
+    fn request(&mut self, method: &str, params: json::JsonValue) -> i64 {
+        self.next_id += 1;
+        let id = self.next_id;
+        self.send(json::object! { "jsonrpc": "2.0", "id": id, "method": method, "params": params });
+        id
+    }
+    fn now(&self) -> u64 { self.t0.elapsed().as_millis() as u64 }
+    fn wait_for<F: Fn(&[(u64, json::JsonValue)]) -> bool>(&self, pred: F, timeout_ms: u64) -> bool {
+        let t = Instant::now();
+        loop {
+            if pred(&self.msgs.lock().unwrap()) { return true; }
+            if t.elapsed().as_millis() as u64 >= timeout_ms { return false; }
+            std::thread::sleep(Duration::from_millis(8));
+        }
+    }
+    fn has_response(&self, id: i64, timeout_ms: u64) -> bool {
+        self.wait_for(|ms| ms.iter().any(|(_, m)| m["id"].as_i64() == Some(id) && m["method"].is_null()), timeout_ms)
+    }
+    fn initialize(&mut self) -> bool {
+        let id = self.request("initialize", json::object! { "processId": json::Null, "rootUri": json::Null,
+            "capabilities": { "workspace": { "configuration": true } } });
+        if !self.has_response(id, 8000) { return false; }
+        self.notify("initialized", json::object! {})
+    }
+    /// wait for the server's next `workspace/configuration` request after message index `from`
+    /// and answer it from this thread (so that all client sends have one definite order)
+    fn answer_config(&mut self, from: usize, settings: json::JsonValue) -> bool {
+        let ok = self.wait_for(|ms| ms.iter().skip(from).any(|(_, m)| m["method"] == "workspace/configuration"), 3000);
+        if !ok { return false; }
+        let id = {
+            let g = self.msgs.lock().unwrap();
+            g.iter().skip(from).find(|(_, m)| m["method"] == "workspace/configuration").map(|(_, m)| m["id"].clone())
+        };
+        match id {
+            Some(id) => self.send(json::object! { "jsonrpc": "2.0", "id": id, "result": json::array![settings] }),
+            None => false,
+        }
+    }
+    fn msg_count(&self) -> usize { self.msgs.lock().unwrap().len() }
+    fn alive(&mut self) -> bool { matches!(self.child.try_wait(), Ok(None)) }
+    fn publications(&self) -> Vec<(u64, String, Option<i64>, String)> {
+        let g = self.msgs.lock().unwrap();
+        g.iter().filter(|(_, m)| m["method"] == "textDocument/publishDiagnostics").map(|(t, m)| {
+            (*t, m["params"]["uri"].as_str().unwrap_or("?").to_string(), m["params"]["version"].as_i64(), m["params"]["diagnostics"].dump())
+        }).collect()
+    }
+    fn stderr_text(&self) -> String { self.stderr.lock().unwrap().clone() }
+    fn shutdown(mut self) {
+        let id = self.request("shutdown", json::Null);
+        let _ = self.has_response(id, 200);
+        self.notify("exit", json::Null);
+        self.stdin = None;
+        // (the servers never leave `io_threads.join()` because `connection` is still alive: kill)
+        let t = Instant::now();
+        while t.elapsed() < Duration::from_millis(30) {
+            if let Ok(Some(_)) = self.child.try_wait() { return; }
+            std::thread::sleep(Duration::from_millis(10));
+        }
+        let _ = self.child.kill();
+        let _ = self.child.wait();
+    }
+}
+
+fn did_open(c: &mut Client, uri: &str, ver: i64, text: &str) -> bool {
+    c.notify("textDocument/didOpen", json::object! { "textDocument": { "uri": uri, "languageId": "x", "version": ver, "text": text } })
+}
+fn did_change(c: &mut Client, uri: &str, ver: i64, text: &str) -> bool {
+    c.notify("textDocument/didChange", json::object! { "textDocument": { "uri": uri, "version": ver }, "contentChanges": [ { "text": text } ] })
+}
+fn did_close(c: &mut Client, uri: &str) -> bool {
+    c.notify("textDocument/didClose", json::object! { "textDocument": { "uri": uri } })
+}
+fn send_request(c: &mut Client, kind: usize, uri: &str, line: usize, ch: usize) -> i64 {
+    let pos = json::object! { "line": line, "character": ch };
+    match kind % 5 {
+        0 => c.request("textDocument/hover", json::object! { "textDocument": { "uri": uri }, "position": pos }),
+        1 => c.request("textDocument/completion", json::object! { "textDocument": { "uri": uri }, "position": pos, "context": { "triggerKind": 1 } }),
+        2 => c.request("textDocument/documentSymbol", json::object! { "textDocument": { "uri": uri } }),
+        3 => c.request("textDocument/semanticTokens/full", json::object! { "textDocument": { "uri": uri } }),
+        _ => c.request("textDocument/definition", json::object! { "textDocument": { "uri": uri }, "position": pos }),
+    }
+}
+
+fn panic_sig(stderr: &str) -> Option<String> {
+    // "thread '<unnamed>' panicked at src/lang/x.rs:12:5:"
+    let i = stderr.find("panicked at ")?;
+    let rest = &stderr[i + 12..];
+    let site: String = rest.chars().take_while(|c| !c.is_whitespace() && *c != ',').collect();
+    let mut parts = site.trim_end_matches(':').split(':');
+    let file = parts.next().unwrap_or("?");
+    let file = match file.find("src/") { Some(k) => &file[k..], None => file };
+    Some(format!("panic:{}", file))
+}
+
+// ------------------------------------------------------------------------------------------------
+// building the servers
+// ------------------------------------------------------------------------------------------------
+
+fn build_servers() -> Result<String, String> {
+    let repo = std::env::var("A2KIT_REPO").unwrap_or_else(|_| "/repo".to_string());
+    let cwd = std::env::current_dir().map_err(|e| e.to_string())?;
+    let target = cwd.join("c18-target");
+    let lock = std::path::Path::new(&repo).join("Cargo.lock");
+    if !lock.exists() {
+        let _ = std::fs::copy("/repo/Cargo.lock", &lock);
+    }
+    let out = Command::new("cargo").args(["build", "--offline", "--bins"]).current_dir(&repo)
+        .env("RUSTFLAGS", "--cfg a2kit_verif").env("CARGO_TARGET_DIR", &target).env("CARGO_NET_OFFLINE", "true")
+        .env_remove("LD_PRELOAD").env_remove("CARGO_ENCODED_RUSTFLAGS")
+        .output().map_err(|e| format!("cargo: {}", e))?;
+    if !out.status.success() {
+        let e = String::from_utf8_lossy(&out.stderr);
+        let tail: Vec<&str> = e.lines().filter(|l| l.contains("error")).take(6).collect();
+        return Err(tail.join(" | "));
+    }
+    Ok(target.join("debug").to_string_lossy().to_string())
+}
+
+// ------------------------------------------------------------------------------------------------
+// document texts
+// ------------------------------------------------------------------------------------------------
+
+const AS_STMTS: [&str; 24] = ["PRINT \"HELLO\"", "GOTO 100", "GOSUB 1000", "FOR I = 1 TO 10", "NEXT I", "A = A + 1", "IF A > 3 THEN 50",
+    "DIM A(10)", "INPUT \"NAME? \";N$", "HOME", "REM A COMMENT", "POKE 768,0", "CALL 768", "RETURN", "END", "X = PEEK(49152)",
+    "DEF FN F(X) = X*2", "Y = FN F(3)", "ON A GOTO 10,20,30", "HTAB 5: VTAB 6", "PRINT CHR$(4);\"RUN X\"", "POKE 103,1: POKE 104,8",
+    "A$ = \"AB\" + B$", "DATA 1,2,\"X\""];
+const IB_STMTS: [&str; 16] = ["PRINT \"HELLO\"", "GOTO 100", "GOSUB 1000", "FOR I = 1 TO 10", "NEXT I", "A = A + 1", "IF A > 3 THEN 50",
+    "DIM A(10)", "INPUT \"NAME\",N$", "REM A COMMENT", "POKE 768,0", "CALL 768", "RETURN", "END", "X = PEEK(2000)", "TAB 5: VTAB 6"];
+const ME_LINES: [&str; 26] = ["START    LDA   #$00", "         STA   $C000", "LOOP     INX", "         BNE   LOOP", "         JMP   NOWHERE", "* comment line",
+    "VAL      EQU   $300", "         ORG   $8000", "         JSR   SUB", "SUB      RTS", "MAC1     MAC", "         LDA   ]1", "         <<<", "         MAC1  #$01",
+    "         DO    0", "         FIN", "]VAR     =     5", "         LDA   #]VAR", ":LOCAL   DEX", "         BPL   :LOCAL", "MSG      ASC   \"HELLO\"", "         HEX   00A1FF",
+    "         DS    16", "         LUP   3", "         --^", "         PUT   OTHER"];
+
+fn valid_text(lang: Lang, rng: &mut Rng) -> String {
+    let n = rng.range(1, 14);
+    let mut s = String::new();
+    match lang {
+        Lang::Applesoft | Lang::Integer => {
+            let mut ln = 10 * rng.range(1, 5);
+            for _ in 0..n {
+                let stmt = if lang == Lang::Applesoft { *rng.pick(&AS_STMTS) } else { *rng.pick(&IB_STMTS) };
+                s.push_str(&format!("{} {}\n", ln, stmt));
+                ln += 10 * rng.range(1, 3);
+            }
+        }
+        Lang::Merlin => {
+            for _ in 0..n { s.push_str(*rng.pick(&ME_LINES)); s.push('\n'); }
+        }
+    }
+    s
+}
+
+fn rand_unicode(rng: &mut Rng) -> char {
+    let pools: [(u32, u32); 7] = [(0x20, 0x7e), (0xa0, 0x24f), (0x370, 0x3ff), (0x5d0, 0x5ea), (0x300, 0x36f), (0x1f300, 0x1f64f), (0x4e00, 0x4fff)];
+    let (lo, hi) = *rng.pick(&pools);
+    char::from_u32(lo + rng.below((hi - lo + 1) as usize) as u32).unwrap_or('?')
+}
+
+/// broken / odd documents; `k` selects the kind
+fn odd_text(lang: Lang, k: usize, rng: &mut Rng) -> (String, &'static str) {
+    let base = valid_text(lang, rng);
+    match k % 14 {
+        0 => { // random bytes as text (lossy utf-8)
+            let n = rng.range(1, 400);
+            (String::from_utf8_lossy(&rng.bytes(n)).to_string(), "random-bytes")
+        }
+        1 => { // random printable ascii with newlines
+            let n = rng.range(1, 600);
+            ((0..n).map(|_| if rng.chance(6) { '\n' } else { (32 + rng.below(95) as u8) as char }).collect(), "random-ascii")
+        }
+        2 => { // huge line
+            let n = rng.range(1000, 6000);
+            let unit = *rng.pick(&["A", "1", "\"", "(", ":", " ", "PRINT", "LDA ", ","]);
+            let mut s = match lang { Lang::Merlin => String::from("LBL LDA "), _ => String::from("10 ") };
+            while s.len() < n { s.push_str(unit); }
+            (s + "\n", "huge-line")
+        }
+        3 => (base.replace('"', "") + "20 PRINT \"UNTERMINATED\n30 A$ = \"X\n", "unbalanced-quotes"),
+        4 => (base.replace('\n', "\r\n"), "crlf"),
+        5 => (base.replace('\n', "\r"), "lone-cr"),
+        6 => { // unicode sprinkled
+            let mut s = String::new();
+            for ch in base.chars() { s.push(ch); if rng.chance(8) { s.push(rand_unicode(rng)); } }
+            (s, "unicode")
+        }
+        7 => { // control characters and NUL
+            let mut s = String::new();
+            for ch in base.chars() { s.push(ch); if rng.chance(6) { s.push(char::from_u32(rng.below(32) as u32).unwrap()); } }
+            (s, "control-chars")
+        }
+        8 => { // truncated in the middle
+            let cut = rng.below(base.len().max(1));
+            let mut c = cut; while !base.is_char_boundary(c) { c -= 1; }
+            (base[..c].to_string(), "truncated")
+        }
+        9 => { // many lines
+            let n = rng.range(300, 1500);
+            let mut s = String::new();
+            for i in 0..n { match lang { Lang::Merlin => s.push_str(&format!("L{} NOP\n", i % 50)), _ => s.push_str(&format!("{} GOTO {}\n", i, (i * 7) % n)) } }
+            (s, "many-lines")
+        }
+        10 => { // extreme numbers
+            let s = match lang {
+                Lang::Merlin => "X EQU $FFFFFFFFFFFFFFFFFFFF\n LDA #99999999999999999999\n ORG $-1\n DS 99999999999\n LUP 4294967296\n --^\n".to_string(),
+                _ => "99999999999999999999 GOTO 99999999999999999999\n65536 PRINT 1E999\n-1 POKE 99999999999,-99999999999\n0 ON 99999999999999999999999 GOTO 1\n10 DIM A(99999999999999999999)\n".to_string(),
+            };
+            (s, "extreme-numbers")
+        }
+        11 => { // words shuffled: syntactically broken
+            let words: Vec<&str> = base.split_whitespace().collect();
+            let mut s = String::new();
+            for _ in 0..words.len().max(3) { if !words.is_empty() { s.push_str(*rng.pick(&words[..])); } s.push(if rng.chance(15) { '\n' } else { ' ' }); }
+            (s, "shuffled")
+        }
+        12 => { // empty-ish
+            ((*rng.pick(&["", "\n", " ", "\n\n\n", "\t", "\u{feff}", " \n \n"])).to_string(), "blank")
+        }
+        _ => { // deep nesting / repeated structure
+            let n = rng.range(50, 3000);
+            let s = match lang {
+                Lang::Merlin => { let mut s = String::new(); for _ in 0..n.min(400) { s.push_str(" DO 1\n"); } s.push_str(" LDA #"); for _ in 0..n { s.push('('); } s.push('\n'); s }
+                _ => { let mut s = String::from("10 A = "); for _ in 0..n { s.push('('); } s.push('1'); for _ in 0..n / 2 { s.push(')'); } s.push('\n'); s }
+            };
+            (s, "deep-nesting")
+        }
+    }
+}
+
+// ------------------------------------------------------------------------------------------------
+// histories
+// ------------------------------------------------------------------------------------------------
+
+#[derive(Clone, Debug)]
+enum Act {
+    Open { d: usize, ver: i64, t: usize },
+    Change { d: usize, ver: i64, t: usize },
+    Close { d: usize },
+    Req { kind: usize, d: usize, line: usize, ch: usize },
+    /// `workspace/didChangeConfiguration` → server pulls → we answer
+    Config { live: bool },
+}
+
+#[derive(Clone, Debug)]
+struct Case {
+    lang: Lang,
+    idx: usize,
+    steps: Vec<(u64, Act)>,
+    texts: Vec<String>,
+    sched: Vec<(String, i64, u64)>,
+    answer_initial_cfg: bool,
+    poison: bool,
+    burst: bool,
+    /// requests must be answered within this many ms although an analysis holds the mutex much longer
+    max_latency: Option<u64>,
+}
+
+impl Case {
+    fn sched_string(&self) -> String {
+        self.sched.iter().map(|(t, v, ms)| format!("{}:{}={}", t, v, ms)).collect::<Vec<_>>().join(",")
+    }
+    fn describe(&self) -> String {
+        let mut s = format!("idx={} srv={} sched={} cfg0={} steps=", self.idx, self.lang.name(), self.sched_string(), self.answer_initial_cfg as u8);
+        for (gap, a) in &self.steps {
+            s.push_str(&match a {
+                Act::Open { d, ver, t } => format!("+{}ms O{}v{}t{} ", gap, d, ver, t),
+                Act::Change { d, ver, t } => format!("+{}ms C{}v{}t{} ", gap, d, ver, t),
+                Act::Close { d } => format!("+{}ms X{} ", gap, d),
+                Act::Req { kind, d, .. } => format!("+{}ms R{}d{} ", gap, kind, d),
+                Act::Config { live } => format!("+{}ms G{} ", gap, *live as u8),
+            });
+        }
+        s
+    }
+    fn launches(&self) -> usize { self.steps.iter().filter(|(_, a)| matches!(a, Act::Open { .. } | Act::Change { .. })).count() }
+}
+
+fn gen_case(lang: Lang, idx: usize, rng: &mut Rng) -> Case {
+    let ndocs = *rng.pick(&[1usize, 1, 2, 2, 3]);
+    let nedits = rng.range(2, 9);
+    let burst = rng.chance(35);
+    let poison = rng.chance(8);
+    let mut texts: Vec<String> = Vec::new();
+    let mut steps: Vec<(u64, Act)> = Vec::new();
+    let mut open = vec![false; ndocs];
+    let mut next_ver = vec![0i64; ndocs];
+    let mut all_vers: Vec<i64> = Vec::new();
+    let mut live = true;
+    let gaps: [u64; 8] = [0, 0, 5, 20, 60, 120, 200, 300];
+    for e in 0..nedits + ndocs {
+        let d = if e < ndocs { e } else { rng.below(ndocs) };
+        let gap = if burst { *rng.pick(&[0u64, 0, 0, 3]) } else { *rng.pick(&gaps) };
+        let t = texts.len();
+        let txt = if rng.chance(30) { odd_text(lang, 3 + rng.below(9), rng).0 } else { valid_text(lang, rng) };
+        // keep texts of one case pairwise distinct so that a text id identifies a text
+        texts.push(format!("{}{}", txt, match lang { Lang::Merlin => format!("* t{}\n", t), _ => format!("{} REM T{}\n", 60000 + t, t) }));
+        next_ver[d] += 1;
+        let ver = (d as i64 + 1) * 1000 + next_ver[d];
+        all_vers.push(ver);
+        if !open[d] {
+            steps.push((gap, Act::Open { d, ver, t }));
+            open[d] = true;
+        } else {
+            steps.push((gap, Act::Change { d, ver, t }));
+        }
+        if rng.chance(25) { steps.push((*rng.pick(&gaps), Act::Req { kind: rng.below(5), d, line: rng.below(4), ch: rng.below(12) })); }
+        if rng.chance(7) && e + 1 < nedits + ndocs { steps.push((*rng.pick(&gaps), Act::Close { d })); open[d] = false; }
+        if rng.chance(10) {
+            let l = if lang == Lang::Merlin && rng.chance(30) { !live } else { live };
+            live = l;
+            steps.push((*rng.pick(&gaps), Act::Config { live: l }));
+        }
+    }
+    // delay table: force out-of-order acquisition/completion
+    let mut sched = Vec::new();
+    for v in &all_vers {
+        if rng.chance(35) { sched.push(("lock".to_string(), *v, *rng.pick(&[30u64, 80, 150, 250]))); }
+        if rng.chance(20) { sched.push(("hold".to_string(), *v, *rng.pick(&[50u64, 120, 250]))); }
+        if rng.chance(10) { sched.push(("finish".to_string(), *v, *rng.pick(&[40u64, 100]))); }
+    }
+    if poison && all_vers.len() >= 2 {
+        let v = all_vers[rng.below(all_vers.len() - 1)];
+        sched.push(("panic".to_string(), v, 1));
+    }
+    Case { lang, idx, steps, texts, sched, answer_initial_cfg: rng.chance(50), poison, burst, max_latency: None }
+}
+
+/// hand-made schedules that every run must contain
+fn fixed_cases(lang: Lang, base: usize, rng: &mut Rng) -> Vec<Case> {
+    let mk = |t: usize, rng: &mut Rng| format!("{}{}", valid_text(lang, rng), match lang { Lang::Merlin => format!("* t{}\n", t), _ => format!("{} REM T{}\n", 60000 + t, t) });
+    let mut out = Vec::new();
+    // (a) burst of 6 edits, completion order reversed by the delay table
+    let texts: Vec<String> = (0..6).map(|t| mk(t, rng)).collect();
+    let mut steps = vec![(0, Act::Open { d: 0, ver: 1001, t: 0 })];
+    for i in 1..6 { steps.push((0, Act::Change { d: 0, ver: 1001 + i as i64, t: i })); }
+    steps.push((10, Act::Req { kind: 0, d: 0, line: 0, ch: 4 }));
+    let sched = (0..6).map(|i| ("lock".to_string(), 1001 + i as i64, 60 * (5 - i as u64))).collect();
+    out.push(Case { lang, idx: base, steps, texts, sched, answer_initial_cfg: false, poison: false, burst: true, max_latency: None });
+    // (b) first analysis holds the mutex for 400 ms while two documents are edited and requests arrive
+    let texts: Vec<String> = (0..4).map(|t| mk(t, rng)).collect();
+    let steps = vec![(0, Act::Open { d: 0, ver: 1001, t: 0 }), (30, Act::Open { d: 1, ver: 2001, t: 1 }), (10, Act::Req { kind: 0, d: 0, line: 0, ch: 4 }),
+        (0, Act::Change { d: 0, ver: 1002, t: 2 }), (20, Act::Req { kind: 1, d: 1, line: 0, ch: 2 }), (0, Act::Change { d: 1, ver: 2002, t: 3 }), (50, Act::Req { kind: 2, d: 0, line: 0, ch: 0 })];
+    out.push(Case { lang, idx: base + 1, steps, texts, sched: vec![("hold".to_string(), 1001, 900)], answer_initial_cfg: true, poison: false, burst: false, max_latency: Some(450) });
+    // (c) configuration answered while an analysis holds the mutex; private-analyzer relaunch
+    let texts: Vec<String> = (0..3).map(|t| mk(t, rng)).collect();
+    let steps = vec![(0, Act::Open { d: 0, ver: 1001, t: 0 }), (0, Act::Open { d: 1, ver: 2001, t: 1 }), (20, Act::Config { live: true }), (0, Act::Change { d: 0, ver: 1002, t: 2 }),
+        (0, Act::Req { kind: 0, d: 0, line: 0, ch: 3 })];
+    out.push(Case { lang, idx: base + 2, steps, texts, sched: vec![("hold".to_string(), 1001, 200), ("lock".to_string(), 2001, 100)], answer_initial_cfg: true, poison: false, burst: false, max_latency: None });
+    // (d) injected thread death: poisoning must silence the shared analyzer exactly as the model says
+    let texts: Vec<String> = (0..4).map(|t| mk(t, rng)).collect();
+    let steps = vec![(0, Act::Open { d: 0, ver: 1001, t: 0 }), (150, Act::Change { d: 0, ver: 1002, t: 1 }), (0, Act::Change { d: 0, ver: 1003, t: 2 }),
+        (100, Act::Req { kind: 0, d: 0, line: 0, ch: 3 }), (50, Act::Change { d: 0, ver: 1004, t: 3 })];
+    out.push(Case { lang, idx: base + 3, steps, texts, sched: vec![("panic".to_string(), 1002, 1)], answer_initial_cfg: false, poison: true, burst: false, max_latency: None });
+    out
+}
+
+// ------------------------------------------------------------------------------------------------
+// running one case
+// ------------------------------------------------------------------------------------------------
+
+#[derive(Clone, Debug)]
+struct LogLine { tag: String, id: usize, uri: String, ver: i64 }
+
+struct Obs {
+    started: bool,
+    hooks: bool,
+    alive_end: bool,
+    log: Vec<LogLine>,
+    pubs: Vec<(u64, String, Option<i64>, String)>,
+    req_sent: Vec<(i64, u64, usize)>,
+    req_answered: Vec<(i64, u64)>,
+    probe_published: bool,
+    probe_request_answered: bool,
+    stderr: String,
+    live_at_end: bool,
+    /// per document: (last version sent, text id, diagnostics of a fresh single-document server)
+    fresh: BTreeMap<usize, (i64, usize, Option<String>)>,
+}
+
+fn read_log(path: &str) -> Vec<LogLine> {
+    let mut out = Vec::new();
+    if let Ok(s) = std::fs::read_to_string(path) {
+        for l in s.lines() {
+            let p: Vec<&str> = l.split('\t').collect();
+            if p.len() == 4 {
+                out.push(LogLine { tag: p[0].to_string(), id: p[1].parse().unwrap_or(usize::MAX), uri: p[2].to_string(), ver: p[3].parse().unwrap_or(-1) });
+            }
+        }
+    }
+    out
+}
+
+fn cfg_value(live: bool) -> json::JsonValue {
+    if live { json::object! {} } else { json::object! { "diagnostics": { "live": false } } }
+}
+
+fn run_case(bin_dir: &str, case: &Case, tag: &str) -> Obs {
+    let log_path = format!("c18-log-{}-{}-{}.txt", tag, case.lang.name(), case.idx);
+    let _ = std::fs::remove_file(&log_path);
+    let mut obs = Obs { started: false, hooks: false, alive_end: false, log: vec![], pubs: vec![], req_sent: vec![], req_answered: vec![],
+        probe_published: false, probe_request_answered: false, stderr: String::new(), live_at_end: true, fresh: BTreeMap::new() };
+    let envs = vec![("A2KIT_VERIF_LOG".to_string(), log_path.clone()), ("A2KIT_VERIF_SCHED".to_string(), case.sched_string())];
+    let mut c = match Client::spawn(&format!("{}/{}", bin_dir, case.lang.exe()), &envs) { Some(c) => c, None => return obs };
+    if !c.initialize() { obs.stderr = c.stderr_text(); c.shutdown(); return obs; }
+    obs.started = true;
+    if case.answer_initial_cfg { c.answer_config(0, cfg_value(true)); }
+    let mut total_delay: u64 = case.sched.iter().filter(|(t, _, _)| t != "panic").map(|(_, _, ms)| *ms).sum();
+    let mut live = true;
+    let mut last_sent: BTreeMap<usize, i64> = BTreeMap::new();
+    let mut last_text: BTreeMap<usize, usize> = BTreeMap::new();
+    let mut expect_launch = 0usize;
+    for (gap, act) in &case.steps {
+        if *gap > 0 { std::thread::sleep(Duration::from_millis(*gap)); }
+        match act {
+            Act::Open { d, ver, t } => { did_open(&mut c, &uri_of(case.lang, case.idx, *d), *ver, &case.texts[*t]); last_sent.insert(*d, *ver); last_text.insert(*d, *t); expect_launch += 1; }
+            Act::Change { d, ver, t } => { did_change(&mut c, &uri_of(case.lang, case.idx, *d), *ver, &case.texts[*t]); if live { last_sent.insert(*d, *ver); last_text.insert(*d, *t); expect_launch += 1; } }
+            Act::Close { d } => { did_close(&mut c, &uri_of(case.lang, case.idx, *d)); }
+            Act::Req { kind, d, line, ch } => {
+                let id = send_request(&mut c, *kind, &uri_of(case.lang, case.idx, *d), *line, *ch);
+                obs.req_sent.push((id, c.now(), *kind));
+            }
+            Act::Config { live: l } => {
+                let from = c.msg_count();
+                c.notify("workspace/didChangeConfiguration", json::object! { "settings": json::Null });
+                if c.answer_config(from, cfg_value(*l)) { live = *l; }
+                total_delay += 400; // the handler may wait for the mutex
+            }
+        }
+    }
+    obs.live_at_end = live;
+    // quiescence: all launched jobs harvested (hooks) / last versions published (black box)
+    let budget = 2500 + 160 * (case.launches() as u64 + 4) + total_delay;
+    let t = Instant::now();
+    loop {
+        std::thread::sleep(Duration::from_millis(40));
+        let log = read_log(&log_path);
+        if !log.is_empty() {
+            let launched = log.iter().filter(|l| l.tag.starts_with("launch")).count();
+            let harvested = log.iter().filter(|l| l.tag == "harvest").count();
+            if launched == harvested && launched >= expect_launch && t.elapsed().as_millis() > 150 { break; }
+        } else if !case.poison {
+            let pubs = c.publications();
+            let done = last_sent.iter().all(|(d, v)| pubs.iter().any(|p| p.1 == uri_of(case.lang, case.idx, *d) && p.2 == Some(*v)));
+            if done && t.elapsed().as_millis() > 250 { break; }
+        }
+        if t.elapsed().as_millis() as u64 > budget { break; }
+    }
+    // outstanding requests
+    for (id, _, _) in obs.req_sent.clone() { let _ = c.has_response(id, 1500); }
+    {
+        let g = c.msgs.lock().unwrap();
+        for (id, _, _) in &obs.req_sent {
+            if let Some((t, _)) = g.iter().find(|(_, m)| m["id"].as_i64() == Some(*id) && m["method"].is_null()) { obs.req_answered.push((*id, *t)); }
+        }
+    }
+    // the `harvest` line precedes the `publish` line, which precedes the bytes on the wire
+    std::thread::sleep(Duration::from_millis(60));
+    obs.log = read_log(&log_path);
+    obs.hooks = !obs.log.is_empty();
+    let want = obs.log.iter().filter(|l| l.tag == "publish").count();
+    let t1 = Instant::now();
+    while c.publications().len() < want && t1.elapsed() < Duration::from_millis(1500) { std::thread::sleep(Duration::from_millis(10)); }
+    obs.pubs = c.publications();
+    // liveness probe: a request and a fresh edit on a new document (not part of the trace)
+    let probe_uri = format!("file:///c18/k{}/probe.{}", case.idx, case.lang.ext());
+    let probe_text = match case.lang { Lang::Merlin => " LDA #$01\n JMP NOWHERE\n", _ => "10 GOTO 20\n" };
+    let rid = send_request(&mut c, 0, &uri_of(case.lang, case.idx, 0), 0, 3);
+    obs.probe_request_answered = c.has_response(rid, 3000);
+    did_open(&mut c, &probe_uri, 77, probe_text);
+    obs.probe_published = c.wait_for(|ms| ms.iter().any(|(_, m)| m["method"] == "textDocument/publishDiagnostics" && m["params"]["uri"] == probe_uri.as_str()),
+        if case.poison { 1200 } else { 4000 });
+    obs.alive_end = c.alive();
+    obs.stderr = c.stderr_text();
+    c.shutdown();
+    if std::env::var("C18_KEEP_LOGS").is_err() { let _ = std::fs::remove_file(&log_path); }
+    if !case.poison {
+        for (d, ver) in &last_sent {
+            let t = last_text[d];
+            let u = uri_of(case.lang, case.idx, *d);
+            obs.fresh.insert(*d, (*ver, t, fresh_diags(bin_dir, case.lang, &u, &case.texts[t])));
+        }
+    }
+    obs
+}
+
+/// diagnostics a fresh server instance publishes for this text alone (same uri)
+fn fresh_diags(bin_dir: &str, lang: Lang, uri: &str, text: &str) -> Option<String> {
+    let mut c = Client::spawn(&format!("{}/{}", bin_dir, lang.exe()), &[])?;
+    if !c.initialize() { c.shutdown(); return None; }
+    did_open(&mut c, uri, 1, text);
+    let u = uri.to_string();
+    let ok = c.wait_for(|ms| ms.iter().any(|(_, m)| m["method"] == "textDocument/publishDiagnostics" && m["params"]["uri"] == u.as_str()), 6000);
+    let ans = if ok { c.publications().into_iter().filter(|p| p.1 == uri).last().map(|p| p.3) } else { None };
+    c.shutdown();
+    ans
+}
+
+// ------------------------------------------------------------------------------------------------
+// trace for the Lean model
+// ------------------------------------------------------------------------------------------------
+
+fn is_main(tag: &str) -> bool { tag.starts_with("launch") || tag == "harvest" || tag == "publish" }
+
+/// returns (request line, implementation answer)
+fn build_trace(case: &Case, obs: &Obs) -> (String, String) {
+    let log = &obs.log;
+    let uri_idx = |u: &str| -> Option<usize> { (0..4).find(|d| uri_of(case.lang, case.idx, *d) == u) };
+    // what the client sent, in order (the initial configuration answer comes first)
+    let mut sent: Vec<Act> = Vec::new();
+    if case.answer_initial_cfg { sent.push(Act::Config { live: true }); }
+    for (_, a) in &case.steps { sent.push(a.clone()); }
+    let mut toks: Vec<String> = Vec::new();
+    let mut si = 0usize;
+    let mut live = true;
+    let mut open: Vec<usize> = Vec::new();
+    let mut consumed: HashSet<usize> = HashSet::new();
+    let mut acquired: HashSet<usize> = HashSet::new();
+    let mut died: HashSet<usize> = HashSet::new();
+    let mut job_doc: HashMap<usize, (String, i64)> = HashMap::new();
+    let mut job_text: HashMap<usize, usize> = HashMap::new();
+    let mut err_texts: Vec<usize> = Vec::new();
+    // harvest outcome per job: Some(true) published, Some(false) not
+    let mut outcome: HashMap<usize, bool> = HashMap::new();
+    for (i, l) in log.iter().enumerate() {
+        if l.tag == "harvest" {
+            let nxt = log.iter().skip(i + 1).find(|x| is_main(&x.tag));
+            outcome.insert(l.id, matches!(nxt, Some(x) if x.tag == "publish"));
+        }
+    }
+    // emit the client messages that launch nothing, up to the next launching one
+    fn flush_silent(sent: &[Act], si: &mut usize, live: &mut bool, open: &mut Vec<usize>, toks: &mut Vec<String>, stop_at_launcher: bool) {
+        while *si < sent.len() {
+            match &sent[*si] {
+                Act::Close { d } => { toks.push(format!("X:{}", d)); open.retain(|x| x != d); }
+                Act::Req { .. } => toks.push("R".to_string()),
+                Act::Config { live: l } if open.is_empty() => { toks.push(format!("G:{}:-", *l as u8)); *live = *l; }
+                Act::Change { d, ver, t } if !*live => toks.push(format!("C:{}:{}:{}", d, ver, t)),
+                _ => { if stop_at_launcher { return; } else { return; } }
+            }
+            *si += 1;
+        }
+    }
+    for (i, l) in log.iter().enumerate() {
+        if consumed.contains(&i) { continue; }
+        match l.tag.as_str() {
+            "launch" | "launch-private" => {
+                flush_silent(&sent, &mut si, &mut live, &mut open, &mut toks, true);
+                job_doc.insert(l.id, (l.uri.clone(), l.ver));
+                if si >= sent.len() { toks.push(format!("?unexpected-launch:{}", l.id)); continue; }
+                match sent[si].clone() {
+                    Act::Open { d, ver, t } | Act::Change { d, ver, t } => {
+                        let is_open = matches!(sent[si], Act::Open { .. });
+                        if l.tag != "launch" || uri_idx(&l.uri) != Some(d) || l.ver != ver { toks.push(format!("?launch-mismatch:{}", l.id)); }
+                        else { toks.push(format!("{}:{}:{}:{}", if is_open { "O" } else { "C" }, d, ver, t)); }
+                        if is_open && !open.contains(&d) { open.push(d); }
+                        job_text.insert(l.id, t);
+                        si += 1;
+                    }
+                    Act::Config { live: lv } => {
+                        // one private job per open document; their order is the hash-map order
+                        let n = open.len();
+                        let mut order: Vec<usize> = Vec::new();
+                        let mut j = i;
+                        let mut bad = l.tag != "launch-private";
+                        while order.len() < n && j < log.len() {
+                            if log[j].tag == "launch-private" && !consumed.contains(&j) {
+                                match uri_idx(&log[j].uri) { Some(d) => order.push(d), None => bad = true }
+                                job_doc.insert(log[j].id, (log[j].uri.clone(), log[j].ver));
+                                // text of the relaunched checkpoint: last text sent for that document
+                                let d = uri_idx(&log[j].uri).unwrap_or(99);
+                                let mut tt = 99999;
+                                for a in sent.iter().take(si) { match a { Act::Open { d: dd, t, .. } | Act::Change { d: dd, t, .. } if *dd == d => tt = *t, _ => {} } }
+                                job_text.insert(log[j].id, tt);
+                                consumed.insert(j);
+                            } else if log[j].tag == "launch" { bad = true; break; }
+                            j += 1;
+                        }
+                        if bad || order.len() != n { toks.push(format!("?config-mismatch:{}", l.id)); }
+                        else { toks.push(format!("G:{}:{}", lv as u8, order.iter().map(|d| d.to_string()).collect::<Vec<_>>().join(","))); }
+                        live = lv;
+                        si += 1;
+                    }
+                    _ => toks.push(format!("?unexpected-launch:{}", l.id)),
+                }
+            }
+            "acquire" => { acquired.insert(l.id); toks.push(format!("A:{}", l.id)); }
+            "finish" => {
+                let r = match outcome.get(&l.id) { Some(true) => "1", Some(false) => "0", None => "?" };
+                if r == "0" { if let Some(t) = job_text.get(&l.id) { if !err_texts.contains(t) { err_texts.push(*t); } } }
+                toks.push(format!("F:{}:{}", l.id, r));
+            }
+            "die" => { died.insert(l.id); toks.push(format!("D:{}", l.id)); }
+            "exit" => { if !acquired.contains(&l.id) { toks.push(format!("E:{}", l.id)); } }
+            "harvest" => {
+                let k = if outcome.get(&l.id) == Some(&true) { "p" } else if died.contains(&l.id) { "e" } else { "n" };
+                toks.push(format!("H:{}:{}", l.id, k));
+            }
+            "publish" => {
+                // must be the publication of the job harvested just before, with that job's uri/version
+                let prev = log.iter().take(i).rev().find(|x| is_main(&x.tag));
+                let ok = match prev { Some(p) if p.tag == "harvest" => job_doc.get(&p.id) == Some(&(l.uri.clone(), l.ver)), _ => false };
+                if !ok { toks.push("?publish-mismatch".to_string()); }
+            }
+            _ => toks.push(format!("?unknown-tag:{}", l.tag)),
+        }
+    }
+    flush_silent(&sent, &mut si, &mut live, &mut open, &mut toks, true);
+    if si < sent.len() { toks.push("?launch-missing".to_string()); }
+    // `F:id:?` (job never harvested) is accepted by nobody: keep the run honest
+    let errs = if err_texts.is_empty() { "-".to_string() } else { err_texts.iter().map(|t| t.to_string()).collect::<Vec<_>>().join(",") };
+    let req = format!("c18 trace {} {}", errs, toks.join(" "));
+    // implementation side of the answer: what really went over the wire
+    let mut pubs: Vec<String> = Vec::new();
+    for (_, uri, ver, _) in &obs.pubs {
+        let d = match uri_idx(uri) { Some(d) => d, None => continue }; // probe document
+        let v = ver.unwrap_or(-1);
+        let mut t = 99999;
+        for a in &sent { match a { Act::Open { d: dd, ver: vv, t: tt } | Act::Change { d: dd, ver: vv, t: tt } if *dd == d && *vv == v => t = *tt, _ => {} } }
+        pubs.push(format!("{}:{}:{}", d, v, t));
+    }
+    let shared_died = log.iter().any(|l| l.tag == "die" && log.iter().any(|x| x.tag == "launch" && x.id == l.id));
+    let launched = log.iter().filter(|l| l.tag.starts_with("launch")).count();
+    let harvested = log.iter().filter(|l| l.tag == "harvest").count();
+    let holding = log.iter().any(|l| l.tag == "acquire" && log.iter().any(|x| x.tag == "launch" && x.id == l.id)
+        && !log.iter().any(|x| (x.tag == "finish" || x.tag == "die") && x.id == l.id));
+    let lock = if shared_died { "poisoned" } else if holding { "held" } else { "free" };
+    let ans = format!("ok pub={} lock={} queue={}", if pubs.is_empty() { "-".to_string() } else { pubs.join(",") }, lock, launched - harvested.min(launched));
+    (req, ans)
+}
+
+// ------------------------------------------------------------------------------------------------
+// oracles for one history case
+// ------------------------------------------------------------------------------------------------
+
+fn judge_case(ctx: &mut Ctx, case: &Case, obs: &Obs) {
+    let srv = case.lang.name();
+    let desc = case.describe();
+    let out = &mut ctx.out;
+    out.count(&format!("srv:{}", srv));
+    out.count(if obs.hooks { "mode:hooks" } else { "mode:black-box(no hooks compiled in)" });
+    if case.burst { out.count("shape:burst"); }
+    if case.poison { out.count("shape:injected-thread-death"); }
+    out.count_n("launches", case.launches() as u64);
+    out.count_n("publications", obs.pubs.len() as u64);
+    if !obs.started {
+        out.oracle(false, "server-starts", &format!("c18/{}/server-does-not-start", srv), &format!("{} stderr={}", desc, obs.stderr.chars().take(200).collect::<String>()));
+        return;
+    }
+    // out-of-order completion really happened?
+    if obs.hooks {
+        let fin: Vec<usize> = obs.log.iter().filter(|l| l.tag == "finish").map(|l| l.id).collect();
+        if fin.windows(2).any(|w| w[1] < w[0]) { out.count("schedule:out-of-order-completion"); }
+        if obs.log.iter().any(|l| l.tag == "launch-private") { out.count("schedule:private-analyzer-relaunch"); }
+        if obs.log.iter().any(|l| l.tag == "die") { out.count("schedule:thread-died"); }
+    }
+    // panics nobody asked for
+    let injected = obs.stderr.contains("a2kit_verif: injected panic");
+    let foreign_panic = obs.stderr.lines().filter(|l| l.contains("panicked at")).any(|l| !l.contains("verif_hooks"));
+    if foreign_panic {
+        let sig = panic_sig(&obs.stderr.lines().filter(|l| l.contains("panicked at") && !l.contains("verif_hooks")).collect::<Vec<_>>().join("\n")).unwrap_or("panic:?".to_string());
+        out.oracle(false, "no-thread-dies", &sig, &format!("{} stderr={}", desc, obs.stderr.chars().take(300).collect::<String>()));
+    } else {
+        out.oracle(true, "no-thread-dies", "-", &format!("idx={}", case.idx));
+    }
+    // (i) version order per document
+    let ndocs = 4;
+    let mut order_ok = true;
+    for d in 0..ndocs {
+        let u = uri_of(case.lang, case.idx, d);
+        let vs: Vec<i64> = obs.pubs.iter().filter(|p| p.1 == u).map(|p| p.2.unwrap_or(-1)).collect();
+        if vs.windows(2).any(|w| w[1] < w[0]) { order_ok = false; }
+        if obs.pubs.iter().any(|p| p.1 == u && p.2.is_none()) { order_ok = false; }
+    }
+    out.oracle(order_ok, "versions-in-order", &format!("c18/{}/version-order", srv), &desc);
+    // requests answered
+    let all_answered = obs.req_sent.iter().all(|(id, _, _)| obs.req_answered.iter().any(|(i, _)| i == id));
+    out.oracle(all_answered && obs.probe_request_answered, "requests-answered", &format!("c18/{}/request-unanswered", srv), &desc);
+    for (id, ts, _) in &obs.req_sent {
+        if let Some((_, ta)) = obs.req_answered.iter().find(|(i, _)| i == id) { if ta.saturating_sub(*ts) < 150 { out.count("request:answered-within-150ms"); } else { out.count("request:answered-later"); } }
+    }
+    if let (Some(limit), true) = (case.max_latency, obs.hooks) {
+        let worst = obs.req_sent.iter().filter_map(|(id, ts, _)| obs.req_answered.iter().find(|(i, _)| i == id).map(|(_, ta)| ta.saturating_sub(*ts))).max().unwrap_or(0);
+        out.oracle(worst <= limit, "request-not-blocked-by-analysis", &format!("c18/{}/main-loop-waits-for-analysis", srv), &format!("{} worst-latency-ms={} limit={}", desc, worst, limit));
+    }
+    out.oracle(obs.alive_end, "server-alive", &format!("c18/{}/server-died", srv), &format!("{} stderr={}", desc, obs.stderr.chars().take(200).collect::<String>()));
+    let dead_analyzer = injected || foreign_panic;
+    // with Merlin's live diagnostics switched off a change is (by design) not analysed until the next
+    // configuration answer or save: "last published = last sent" is then left to the trace validation
+    let live_off = case.steps.iter().any(|(_, a)| matches!(a, Act::Config { live: false }));
+    if live_off { out.count("shape:merlin-live-diagnostics-off"); }
+    if !dead_analyzer {
+        // still publishes for a new edit
+        out.oracle(obs.probe_published, "publishes-after-history", &format!("c18/{}/no-diagnostics-after-history", srv), &desc);
+        // (ii) last publication = last version sent = fresh analysis of the final text
+        for (d, (ver, _t, fresh)) in obs.fresh.iter().filter(|_| !live_off) {
+            let u = uri_of(case.lang, case.idx, *d);
+            let lastp = obs.pubs.iter().filter(|p| p.1 == u).last();
+            match lastp {
+                Some(p) if p.2 == Some(*ver) => {
+                    out.oracle(true, "last-is-latest", "-", &format!("idx={}", case.idx));
+                    match fresh.clone() {
+                        Some(f) => {
+                            let same = f == p.3;
+                            if !same { out.count("fresh:differs"); }
+                            out.oracle(same, "equals-fresh-analysis", &format!("c18/{}/diagnostics-differ-from-fresh-analysis", srv),
+                                &format!("{} doc={} got={} fresh={}", desc, d, p.3.chars().take(300).collect::<String>(), f.chars().take(300).collect::<String>()));
+                        }
+                        None => out.oracle(false, "equals-fresh-analysis", &format!("c18/{}/fresh-server-publishes-nothing", srv), &format!("{} doc={}", desc, d)),
+                    }
+                }
+                Some(p) => out.oracle(false, "last-is-latest", &format!("c18/{}/stale-diagnostics-after-burst", srv),
+                    &format!("{} doc={} last-published-version={:?} last-sent={}", desc, d, p.2, ver)),
+                None => out.oracle(false, "last-is-latest", &format!("c18/{}/no-diagnostics-for-document", srv), &format!("{} doc={} last-sent={}", desc, d, ver)),
+            }
+        }
+    } else if injected {
+        // the model's prediction for a poisoned analyzer is checked by the trace; black-box: nothing new comes out
+        out.count("poison:probe-silent");
+        if obs.probe_published { out.count("poison:probe-still-published"); }
+    }
+    // model vs implementation
+    if obs.hooks {
+        let (req, ans) = build_trace(case, obs);
+        out.q(&req, &ans);
+    }
+    let canon = format!("{}|{}", desc, obs.hooks);
+    out.case(canon.as_bytes(), case.launches() >= 2);
+    out.sample(&desc);
+}
+
+// ------------------------------------------------------------------------------------------------
+// robustness stream
+// ------------------------------------------------------------------------------------------------
+
+fn analyze_in_process(lang: Lang, text: &str) -> Result<bool, String> {
+    let doc = a2kit::lang::Document::from_string(text.to_string(), 1);
+    let r = guarded(|| match lang {
+        Lang::Applesoft => { let mut a = a2kit::lang::applesoft::diagnostics::Analyzer::new(); let r = a.analyze(&doc).is_ok(); let _ = a.get_diags(&doc); r }
+        Lang::Integer => { let mut a = a2kit::lang::integer::diagnostics::Analyzer::new(); let r = a.analyze(&doc).is_ok(); let _ = a.get_diags(&doc); r }
+        Lang::Merlin => { let mut a = a2kit::lang::merlin::diagnostics::Analyzer::new(); let r = a.analyze(&doc).is_ok(); let _ = a.get_diags(&doc); r }
+    });
+    r
+}
+
+struct OddResult { idx: usize, kind: &'static str, len: usize, published: bool, answered: bool, alive: bool, stderr: String, inproc: Result<bool, String> }
+
+/// one server instance per chunk; a document that silences or kills it is reported and the server restarted
+fn run_odd_chunk(bin_dir: &str, lang: Lang, docs: &[(usize, String, &'static str, Result<bool, String>)]) -> Vec<OddResult> {
+    let mut res = Vec::new();
+    let mut client: Option<Client> = None;
+    for (idx, text, kind, inproc) in docs {
+        if client.is_none() {
+            let mut c = match Client::spawn(&format!("{}/{}", bin_dir, lang.exe()), &[]) { Some(c) => c, None => continue };
+            if !c.initialize() { c.shutdown(); continue; }
+            client = Some(c);
+        }
+        let c = client.as_mut().unwrap();
+        let t_doc = Instant::now();
+        let uri = format!("file:///c18/odd/d{}.{}", idx, lang.ext());
+        did_open(c, &uri, 1, text);
+        let nlines = text.lines().count().max(1);
+        let mut ids = Vec::new();
+        for k in 0..5 { ids.push(send_request(c, k, &uri, (idx + k) % nlines, (idx * 7 + k) % 20)); }
+        let u = uri.clone();
+        let budget = 8000 + text.len() as u64;
+        let published = c.wait_for(|ms| ms.iter().any(|(_, m)| m["method"] == "textDocument/publishDiagnostics" && m["params"]["uri"] == u.as_str()), budget);
+        let mut answered = true;
+        let t_req = Instant::now();
+        for id in ids {
+            let left = 4000u64.saturating_sub(t_req.elapsed().as_millis() as u64).max(50);
+            if !c.has_response(id, left) { answered = false; }
+        }
+        let alive = c.alive();
+        let stderr = c.stderr_text();
+        let bad = !published || !answered || !alive;
+        if std::env::var("C18_TIMING").is_ok() { eprintln!("c18: odd {} {} {} len={} took {:?}", lang.name(), idx, kind, text.len(), t_doc.elapsed()); }
+        res.push(OddResult { idx: *idx, kind, len: text.len(), published, answered, alive, stderr: if bad { stderr } else { String::new() }, inproc: inproc.clone() });
+        if bad { client.take().unwrap().shutdown(); }
+        else { did_close(c, &uri); }
+    }
+    if let Some(c) = client { c.shutdown(); }
+    res
+}
+
+// ------------------------------------------------------------------------------------------------
+// entry
+// ------------------------------------------------------------------------------------------------
+
+pub fn run(ctx: &mut Ctx) {
+    let bin_dir = match build_servers() {
+        Ok(d) => d,
+        Err(e) => {
+            ctx.out.oracle(false, "servers-build", "c18/servers-do-not-build", &format!("idx=0 {}", e));
+            return;
+        }
+    };
+    let mut rng = Rng::new(ctx.seed ^ 0xC18);
+    // ---- history cases ----
+    let t_start = Instant::now();
+    let n_hist = ctx.n(12, 80);
+    let mut cases: Vec<Case> = Vec::new();
+    for lang in Lang::all() {
+        for k in 0..n_hist {
+            let idx = lang.idx() * 1000 + k;
+            let mut r = rng.fork(idx as u64);
+            cases.push(gen_case(lang, idx, &mut r));
+        }
+        let mut r = rng.fork(9000 + lang.idx() as u64);
+        cases.extend(fixed_cases(lang, 9000 + lang.idx() * 10, &mut r));
+    }
+    let cases: Vec<Case> = cases.into_iter().filter(|c| ctx.out.wants(c.idx)).collect();
+    // run them on a small pool (server processes mostly sleep)
+    let width = 10usize;
+    let queue = Arc::new(Mutex::new(cases.clone().into_iter().enumerate().collect::<Vec<_>>()));
+    let results: Arc<Mutex<Vec<(usize, Obs)>>> = Arc::new(Mutex::new(Vec::new()));
+    let mut hs = Vec::new();
+    for _ in 0..width {
+        let queue = Arc::clone(&queue);
+        let results = Arc::clone(&results);
+        let bin_dir = bin_dir.clone();
+        hs.push(std::thread::spawn(move || loop {
+            let item = queue.lock().unwrap().pop();
+            match item {
+                Some((i, case)) => { let o = run_case(&bin_dir, &case, "h"); results.lock().unwrap().push((i, o)); }
+                None => break,
+            }
+        }));
+    }
+    for h in hs { let _ = h.join(); }
+    let mut results = std::mem::take(&mut *results.lock().unwrap());
+    results.sort_by_key(|(i, _)| *i);
+    for (i, obs) in &results { judge_case(ctx, &cases[*i], obs); }
+
+    eprintln!("c18: histories done at {:?}", t_start.elapsed());
+    // ---- robustness stream ----
+    let n_odd = ctx.n(36, 600);
+    let n_inproc = ctx.n(420, 8000);
+    for lang in Lang::all() {
+        let mut docs: Vec<(usize, String, &'static str, Result<bool, String>)> = Vec::new();
+        let mut suspicious: Vec<(usize, String, &'static str, Result<bool, String>)> = Vec::new();
+        for k in 0..n_inproc {
+            let idx = 20000 + lang.idx() * 100000 + k;
+            let mut r = rng.fork(idx as u64);
+            let (text, kind) = odd_text(lang, k, &mut r);
+            if !ctx.out.wants(idx) { continue; }
+            let t_in = Instant::now();
+            let inproc = analyze_in_process(lang, &text);
+            if std::env::var("C18_TIMING").is_ok() && t_in.elapsed() > Duration::from_millis(300) { eprintln!("c18: inproc {} {} {} len={} took {:?}", lang.name(), idx, kind, text.len(), t_in.elapsed()); }
+            ctx.out.count(&format!("odd:{}", kind));
+            match &inproc {
+                Ok(true) => {}
+                Ok(false) => ctx.out.count("odd-inproc:analyze-returned-err"),
+                Err(_) => ctx.out.count("odd-inproc:panic"),
+            }
+            let interesting = !matches!(inproc, Ok(true));
+            if interesting { if suspicious.len() < 12 { suspicious.push((idx, text, kind, inproc)); } }
+            else if docs.len() < n_odd && (k < n_odd || ctx.out.only.is_some()) { docs.push((idx, text, kind, inproc)); }
+            else { ctx.out.case(format!("odd|{}|{}", lang.name(), idx).as_bytes(), true); }
+        }
+        eprintln!("c18: {} in-process done at {:?}", lang.name(), t_start.elapsed());
+        // the real server: everything suspicious first, then the sample
+        suspicious.extend(docs);
+        let chunks: Vec<Vec<_>> = suspicious.chunks(suspicious.len().div_ceil(6).max(1)).map(|c| c.to_vec()).collect();
+        let mut hs = Vec::new();
+        for ch in chunks {
+            let bin_dir = bin_dir.clone();
+            hs.push(std::thread::spawn(move || run_odd_chunk(&bin_dir, lang, &ch)));
+        }
+        let mut all: Vec<OddResult> = Vec::new();
+        for h in hs { if let Ok(v) = h.join() { all.extend(v); } }
+        all.sort_by_key(|r| r.idx);
+        for r in all {
+            let srv = lang.name();
+            let case = format!("idx={} srv={} kind={} len={} published={} answered={} alive={} inproc={:?} stderr={}", r.idx, srv, r.kind, r.len, r.published, r.answered, r.alive,
+                r.inproc.as_ref().map_err(|e| panic_site(e)), r.stderr.chars().take(240).collect::<String>());
+            let psig = panic_sig(&r.stderr);
+            let ok = r.published && r.answered && r.alive;
+            let sig = if ok { "-".to_string() } else if let Some(p) = psig { p } else if !r.alive { format!("c18/{}/server-died", srv) }
+                else if !r.published { format!("c18/{}/no-diagnostics-for-document", srv) } else { format!("c18/{}/request-unanswered", srv) };
+            ctx.out.oracle(ok, "odd-document-served", &sig, &case);
+            ctx.out.count("odd:sent-to-server");
+            ctx.out.case(format!("odd|{}|{}", srv, r.idx).as_bytes(), true);
+        }
+    }
+}
